@@ -102,6 +102,34 @@ pub fn run(seed: u64, out: &str, millis: u64) -> bool {
                 }
             }));
         }
+        // order client (C11): un-awaited put; delete of the same fresh key, again and again, with a queue that is often
+        // full: once both acknowledgements have completed the key is absent (the delete was applied after the put), the
+        // delete's acknowledgement never completes before the put's, and the delete is never answered "key does not
+        // exist" when its put was accepted
+        {
+            let (cache, stop, violations) = (cache.clone(), stop.clone(), violations.clone());
+            threads.push(std::thread::spawn(move || {
+                let mut key = 1_000_000u64;
+                while !stop.load(Ordering::Relaxed) {
+                    key += 1;
+                    let put = match cache.put_with_weight(key, key, 1) { Ok(ack) => ack, Err(_) => break };
+                    let delete = match cache.delete(key) { Ok(ack) => ack, Err(_) => break };
+                    let delete_status = wait_done(&delete);
+                    let put_done_by_then = put.verif_peek().0;
+                    let put_status = wait_done(&put);
+                    if delete_status == CommandStatus::Pending || put_status == CommandStatus::Pending { violations.lock().unwrap().push(format!("C12/never-resolved put/delete({})", key)); break; }
+                    if !put_done_by_then {
+                        violations.lock().unwrap().push(format!("C11/acknowledgements-out-of-order delete({}) was acknowledged while the put issued before it by the same thread was still pending", key));
+                    }
+                    if cache.get(&key).is_some() {
+                        violations.lock().unwrap().push(format!("C11/put-then-delete-leaves-key put({}); delete({}) un-awaited, both acknowledged ({:?}, {:?}), and the key is still readable", key, key, put_status, delete_status));
+                    }
+                    if put_status == CommandStatus::Accepted && matches!(delete_status, CommandStatus::Rejected(_)) {
+                        violations.lock().unwrap().push(format!("C11/delete-overtook-put put({}) accepted but the delete issued after it was rejected ({:?})", key, delete_status));
+                    }
+                }
+            }));
+        }
         // observer: the total stays within [0, limit] at every sampled instant
         {
             let (cache, stop, worst_total, least_total) = (cache.clone(), stop.clone(), worst_total.clone(), least_total.clone());
